@@ -114,6 +114,48 @@ def build_extractor():
         return rc == 0, out
 
 
+def closure_roots():
+    """property -> lean names of the functions pinned in its property file (source_* / skeleton_* theorems): the roots of
+    the influence closure the extractor computes"""
+    roots = {}
+    pdir = os.path.join(LEAN, "Firebolt", "Properties")
+    for f in sorted(os.listdir(pdir)):
+        m = re.match(r"(C\d\d)\.lean$", f)
+        if m:
+            src = open(os.path.join(pdir, f)).read()
+            roots[m.group(1)] = sorted(set(re.findall(r"theorem (?:source|skeleton)_(\w+)", src)))
+    return roots
+
+
+def closure_diff(pid):
+    """functions whose digest differs between Generated/Closure.lean and Expected/Closure.lean for a property"""
+    def load(path):
+        d, cur = {}, None
+        if not os.path.exists(path):
+            return d
+        for l in open(path):
+            m = re.match(r"def (C\d\d)", l)
+            if m:
+                cur = m.group(1)
+                d[cur] = {}
+            else:
+                m = re.match(r'\s+\("([^"]+)", "([0-9a-f]+)"\)', l)
+                if m and cur:
+                    d[cur][m.group(1)] = m.group(2)
+        return d
+    g = load(os.path.join(LEAN, "Firebolt", "Generated", "Closure.lean")).get(pid, {})
+    e = load(os.path.join(LEAN, "Firebolt", "Expected", "Closure.lean")).get(pid, {})
+    out = []
+    for k in sorted(set(g) | set(e)):
+        if k not in e:
+            out.append(k + " (new in the closure)")
+        elif k not in g:
+            out.append(k + " (gone from the closure)")
+        elif g[k] != e[k]:
+            out.append(k + " (changed)")
+    return out
+
+
 def regenerate():
     """delete and regenerate lean/Firebolt/Generated/*.lean from /repo's sources"""
     gen = os.path.join(LEAN, "Firebolt", "Generated")
@@ -127,7 +169,9 @@ def regenerate():
     os.makedirs(tmp, exist_ok=True)
     for f in os.listdir(tmp):
         os.remove(os.path.join(tmp, f))
-    rc, out = sh([EXTRACTOR, "-repo", REPO, "-out", tmp], timeout=120)
+    roots_file = os.path.join(BUILD, "closure_roots.json")
+    json.dump(closure_roots(), open(roots_file, "w"), indent=0, sort_keys=True)
+    rc, out = sh([EXTRACTOR, "-repo", REPO, "-out", tmp, "-roots", roots_file], timeout=120)
     if rc != 0:
         return False, out
     # only touch files whose content changed so lake's incremental build stays incremental
@@ -152,8 +196,16 @@ THEOREM_RE = re.compile(r"^(?:@\[[^\]]*\]\s*)?(?:private\s+|protected\s+)?theore
 NAMESPACE_RE = re.compile(r"^namespace\s+(\S+)", re.M)
 
 
+def bridge_module(pid):
+    """Properties/<pid>B.lean, when present, holds the property's bridge theorems (the model's own observation satisfies
+    the executable Spec); its theorems are obligations of the property like those of Properties/<pid>.lean"""
+    path = os.path.join(LEAN, "Firebolt", "Properties", pid + "B.lean")
+    return path if os.path.exists(path) else None
+
+
 def property_theorems(pid):
-    """(qualified name, line) of every theorem in Properties/<pid>.lean"""
+    """(qualified name, line) of every theorem in Properties/<pid>.lean (lines refer to that file) followed by those of
+    Properties/<pid>B.lean (line 0)"""
     path = os.path.join(LEAN, "Firebolt", "Properties", pid + ".lean")
     if not os.path.exists(path):
         return path, []
@@ -164,6 +216,13 @@ def property_theorems(pid):
     for m in THEOREM_RE.finditer(src):
         line = src.count("\n", 0, m.start()) + 1
         res.append((prefix + m.group(1), line))
+    bpath = bridge_module(pid)
+    if bpath:
+        bsrc = open(bpath).read()
+        bns = NAMESPACE_RE.search(bsrc)
+        bprefix = (bns.group(1) + ".") if bns else ""
+        for m in THEOREM_RE.finditer(bsrc):
+            res.append((bprefix + m.group(1), 0))
     return path, res
 
 
@@ -204,9 +263,11 @@ def check_proofs(pid, thorough):
         res["obligations"].append(module)
         return res
     res["obligations"] = [t for t, _ in thms]
+    modules = [module] + ([module + "B"] if bridge_module(pid) else [])
+    thms_main = [(t, l) for t, l in thms if l > 0]
     with Lock("lake"):
-        ok, out = lake_build([module, "fbdriver"])
-        res["checker_cmd"] = "cd lean && lake build %s fbdriver && lake env lean <audit of #print axioms>" % module
+        ok, out = lake_build(modules + ["fbdriver"])
+        res["checker_cmd"] = "cd lean && lake build %s fbdriver && lake env lean <audit of #print axioms>" % " ".join(modules)
         if not ok:
             res["detail"] = out[-6000:]
             # map error lines in the property file to theorems; any other failing module fails all
@@ -218,9 +279,9 @@ def check_proofs(pid, thorough):
                 res["failed"] = list(res["obligations"])
                 res["failed_reason"] = "build of %s failed in %s" % (module, sorted(set(other)) or "?")
             else:
-                starts = [l for _, l in thms] + [10 ** 9]
+                starts = [l for _, l in thms_main] + [10 ** 9]
                 for el in err_lines:
-                    for i, (t, l) in enumerate(thms):
+                    for i, (t, l) in enumerate(thms_main):
                         if l <= el < starts[i + 1] and t not in res["failed"]:
                             res["failed"].append(t)
                 if not res["failed"]:
@@ -229,7 +290,8 @@ def check_proofs(pid, thorough):
         # axiom audit
         audit = os.path.join(BUILD, "Audit_%s.lean" % pid)
         with open(audit, "w") as f:
-            f.write("import %s\n" % module)
+            for mod in modules:
+                f.write("import %s\n" % mod)
             for t, _ in thms:
                 f.write("#print axioms %s\n" % t)
         rc, out = sh(["lake", "env", "lean", audit], cwd=LEAN, timeout=900)
@@ -254,10 +316,12 @@ def check_proofs(pid, thorough):
         if bad:
             res["failed"].append("forbidden tokens: " + "; ".join(bad[:5]))
         if thorough and not res["failed"]:
-            rc, out = sh(["lake", "env", "leanchecker", module], cwd=LEAN, timeout=3000)
-            res["leanchecker"] = "ok" if rc == 0 else out[-2000:]
-            if rc != 0:
-                res["failed"].append("leanchecker " + module)
+            for mod in modules:
+                rc, out = sh(["lake", "env", "leanchecker", mod], cwd=LEAN, timeout=3000)
+                res["leanchecker"] = "ok" if rc == 0 else out[-2000:]
+                if rc != 0:
+                    res["failed"].append("leanchecker " + mod)
+                    break
     return res
 
 
@@ -623,6 +687,7 @@ def check(pid, tier):
                 first_diff = dict(component=c, input=v["input"], observed=v["impl"], model=v["model"])
             path = write_replay(pid, seed, "unproved", dict(
                 kind="no-failing-input-found", no_longer_checks=[dict(kind=k, items=d[:10]) for k, d in broken],
+                closure_functions_changed=closure_diff(pid),
                 first_disagreement=first_diff, lean_output=proofs.get("detail", "")[-3000:],
                 searched="failing-input search over derived seeds with 4x budget per seed found no Spec violation"))
             violations.append((path, " no-failing-input-found"))
